@@ -41,8 +41,9 @@ func TestC06Pipelined(t *testing.T) {
 		trace = nil
 		uni := kv.GenUniverse(t, rapid.IntRange(2, 10).Draw(t, "nuni"), false)
 		dbs := map[string]dbApi.NodeDB{}
+		noWL := rapid.IntRange(0, 2).Draw(t, "discardWriteLogs") == 0
 		for _, b := range kv.Backends {
-			ndb, err := kv.OpenDB(b, "", true)
+			ndb, err := kv.OpenDBOpts(b, "", true, noWL)
 			if err != nil {
 				ev.Infra(t, "open %s: %v", b, err)
 			}
